@@ -189,6 +189,10 @@ func genVest(g *Gen, n int) {
 					g.emit("v.send %s %s s%d %s %d", atok(o), atok(vaddr(fresh)), (i+1)%3, g.pick("0", "1", "1000"), g.intn(2))
 				}
 			}
+			// the name of a pool that has been paid out completely is asked for again: still taken (a second
+			// pool of that name would make the exported genesis invalid)
+			g.emit("v.createPool %s s1 %s %d %s", atok(o), g.pick("0", "1", "777"), g.pickI(sec, 3600*sec), vts[0])
+			g.emit("v.q.pools %s", o)
 			g.count("shape/staggered-lock-ends")
 		case 1:
 			va := vaddr(9)
@@ -444,7 +448,14 @@ func genSplit(g *Gen, n int) {
 		if g.chance(0.6) {
 			to := vaddr(fresh)
 			fresh++
-			g.emit("v.send %s %s %s %s %d", atok(owner), atok(to), g.pick("gen", "plain"), g.logBig(20), g.intn(2))
+			toTok := atok(to)
+			if g.chance(0.35) {
+				// the recipient spelt in upper case (valid bech32, same account): its record must be found
+				// again when it later splits or moves (D35)
+				toTok = strings.ToUpper(to) + ":1"
+				g.count("pattern/uppercase-recipient")
+			}
+			g.emit("v.send %s %s %s %s %d", atok(owner), toTok, g.pick("gen", "plain"), g.logBig(20), g.intn(2))
 			cvas = append(cvas, to)
 		}
 		if g.chance(0.25) {
